@@ -218,6 +218,12 @@ func (p *Program) verifyFunction(name string) (enc *Enc, err error) {
 			}()
 		}
 	}
+	if con != nil && len(con.Decreases) > 0 {
+		for _, d := range con.Decreases {
+			tr := &Translator{f: f, cur: f.st, old: f.st, allocOld: alloc0}
+			f.recMeasure = append(f.recMeasure, tr.expr(d.Expr).t)
+		}
+	}
 	if con != nil && con.HasAssigns {
 		if _, ok := con.Checks["frame"]; ok {
 			locs, _, aerr := p.assignLocs(con, fn.Signature)
